@@ -1,5 +1,6 @@
 import LenaModel.DriverUtil
 import LenaModel.Model.C04
+import LenaModel.Model.C04Spec
 /-! Model driver for C04.
 
 Values in cells and data: int | "str" | [list] | {"t":[tuple]} | {"d":{dict}} | {"q":[n,d]}.
@@ -79,6 +80,7 @@ def stepOf (j : Json) : Option Step :=
   | some "app" => (int? (getD j "v")).map Step.app
   | some "setd" => do some (.setd (← str? (getD j "key")) (← int? (getD j "v")))
   | some "stop" => (nat? (getD j "n")).map Step.stop
+  | some "emit" => some .emit
   | _ => none
 
 def accOf (j : Json) : Option AccKind :=
@@ -176,6 +178,80 @@ def renderItems (st : Store Value) : List Tok → List HItem → List Tok × Lis
     let q := renderItems st r.1 xs
     (q.1, r.2 :: q.2)
 
+
+/-! ### the specification-side definitions, executed (ties to the real run: see harness/props/c04.py) -/
+
+def tokJson (t : Tok) : Json := Json.arr #[ofNat t.1, ofNat t.2]
+
+def rawItemJson (x : HItem) : Json :=
+  Json.mkObj [("d", ofOpt valueJson x.skel.data), ("c", Json.bool x.skel.hasCtx),
+    ("cells", Json.arr (x.cells.map tokJson).toArray)]
+
+/-- an event with everything it carries (object names as they are, contents of the snapshots) -/
+def evJson : Ev Skel Value → Json
+  | .hand i buf c => Json.mkObj [("e", "hand"), ("i", ofNat i), ("buf", ofList rawItemJson buf), ("copied", Json.bool c)]
+  | .fill i x st => Json.mkObj [("e", "fill"), ("i", ofNat i), ("x", rawItemJson x), ("stopped", Json.bool st)]
+  | .call i => Json.mkObj [("e", "call"), ("i", ofNat i)]
+  | .compute i => Json.mkObj [("e", "compute"), ("i", ofNat i)]
+  | .request i => Json.mkObj [("e", "request"), ("i", ofNat i)]
+  | .run i buf => Json.mkObj [("e", "run"), ("i", ofNat i), ("buf", ofList rawItemJson buf)]
+  | .out i v snap => Json.mkObj [("e", "out"), ("i", ofNat i), ("v", rawItemJson v), ("snap", ofList valueJson snap)]
+  | .assertFail => Json.mkObj [("e", "assertFail")]
+
+def evsString (tr : List (Ev Skel Value)) : String := (ofList evJson tr).compress
+
+/-- a yielded value as a plain Python value with the contents its objects had at the moment of the yield -/
+def plainAtYield (v : HItem) (snap : List Value) : Json :=
+  let (dj, rest) : Json × List Value :=
+    match v.skel.data with
+    | some d => (valueJson d, snap)
+    | none => (ofOpt valueJson snap.head?, snap.drop 1)
+  if v.skel.hasCtx then Json.mkObj [("t", Json.arr #[dj, ofOpt valueJson rest.getLast?])] else dj
+
+def plainOuts : List (Ev Skel Value) → List Json
+  | [] => []
+  | .out _ v snap :: r => plainAtYield v snap :: plainOuts r
+  | _ :: r => plainOuts r
+
+/-- the buffers handed to branch `i`, in order -/
+def handsOf (i : Nat) : List (Ev Skel Value) → List (List HItem × Bool)
+  | [] => []
+  | .hand j buf c :: r => if j == i then (buf, c) :: handsOf i r else handsOf i r
+  | _ :: r => handsOf i r
+
+/-- for every value branch `i` was filled with / run on: was it a copy (none: the value has no object) -/
+def fillFlags (i : Nat) : List (Ev Skel Value) → List Json
+  | [] => []
+  | e :: r =>
+    let flag := fun (x : HItem) => match x.cells.head? with
+      | none => Json.null
+      | some t => Json.bool (t.1 != upNs)
+    match e with
+    | .fill j x _ => if j == i then flag x :: fillFlags i r else fillFlags i r
+    | .run j buf => if j == i then buf.map flag ++ fillFlags i r else fillFlags i r
+    | _ => fillFlags i r
+
+def checkRun (brs : List (Branch HSt Skel Value)) (bufsize : Option Nat) (copyBuf : Bool) (st0 : Store Value)
+    (flow : List HItem) : Json :=
+  let tr := (Split.runTrace { branches := brs, bufsize := bufsize, copyBuf := copyBuf } st0 flow).1
+  let bl := Lena.C03.blocks bufsize flow
+  let per := brs.map (fun b =>
+    let sched := (bl.zip (handsOf b.id tr)).map (fun p => (p.1, p.2.1, p.2.2))
+    let alone := aloneTrace st0 b sched bl.isEmpty
+    Json.mkObj [("proj_eq", Json.bool (evsString (proj b.id tr) == evsString alone)),
+      ("alone", Json.arr (plainOuts alone).toArray), ("fills", Json.arr (fillFlags b.id tr).toArray)])
+  Json.mkObj [("disjoint", Json.bool (decide ((tr.map handCells).Pairwise Disj))), ("branches", Json.arr per.toArray)]
+
+def checkFill (fill1 : HItem → World Value → List (Branch HSt Skel Value) → FillAllRes HSt Skel Value)
+    (brs : List (Branch HSt Skel Value)) (st0 : Store Value) (flow : List HItem) : Json :=
+  let tr := (fillFlow fill1 { st := st0, cc := 0 } brs flow).evs
+  let per := brs.map (fun b =>
+    let sched := (flow.zip (handsOf b.id tr)).map (fun p => (p.1, p.2.1.headD p.1, p.2.2))
+    let alone := (aloneFillLife st0 st0 b sched).1
+    Json.mkObj [("proj_eq", Json.bool (evsString (proj b.id tr) == evsString alone)),
+      ("alone", Json.null), ("fills", Json.arr (fillFlags b.id tr).toArray)])
+  Json.mkObj [("disjoint", Json.bool (decide ((tr.map handCells).Pairwise Disj))), ("branches", Json.arr per.toArray)]
+
 def handleSplit (j : Json) : Json :=
   match (arr? (getD j "branches")).bind (fun a => a.toList.mapM bspecOf), heapOf (getD j "heap"),
       itemsOf (getD j "flow"), bool? (getD j "copy_buf"), str? (getD j "mode") with
@@ -200,7 +276,15 @@ def handleSplit (j : Json) : Json :=
         (outputs c.1, c.2.1, f.stopped)
     let rf := renderItems res.2.1 [] flow
     let ro := renderItems res.2.1 rf.1 res.1
-    Json.mkObj [("flow", Json.arr rf.2.toArray), ("outs", Json.arr ro.2.toArray), ("stopped", Json.bool res.2.2)]
+    let chk : Json :=
+      if (bool? (getD j "check")).getD false then
+        match mode with
+        | "run" => checkRun brs bufsize copyBuf st0 flow
+        | "fill" => checkFill (splitFill copyBuf) brs st0 flow
+        | _ => checkFill zipFill brs st0 flow
+      else Json.null
+    Json.mkObj [("flow", Json.arr rf.2.toArray), ("outs", Json.arr ro.2.toArray), ("stopped", Json.bool res.2.2),
+      ("check", chk)]
   | _, _, _, _, _ => err "bad split args"
 
 structure HistSt (σ : Type) where
@@ -209,20 +293,33 @@ structure HistSt (σ : Type) where
   filled : List HItem := []
   outs : List HItem := []
   evs : List Json := []
+  known : List Tok := []
+  /-- the instances of `FreshYield` / `Local` held for every invocation so far -/
+  freshOk : Bool := true
+  localOk : Bool := true
 
 def setKey (key : String) (v : Value) : Value := .dict (dictSet (ctxOf v) key (.int 1))
 
-def histStep {σ : Type} (ops : Ops σ Skel Value) (reset : σ → σ) (h : HistSt σ) (j : Json) : Option (HistSt σ) :=
-  let doReq (h : HistSt σ) (r : Req Skel) : HistSt σ :=
-    let a := ops.act h.st h.s r
-    { h with st := a.1, s := a.2.1, outs := h.outs ++ a.2.2.outs,
-             evs := h.evs ++ [Json.mkObj [("n", ofNat a.2.2.outs.length), ("err", ofOpt Json.str a.2.2.err)]] }
+/-- one invocation, with the executed instances of `FreshYield` and `Local` -/
+def histAct {σ : Type} (ops : Ops σ Skel Value) (ctr : σ → Nat) (ns : Nat) (h : HistSt σ) (r : Req Skel)
+    (record : Bool) : HistSt σ :=
+  let a := ops.act h.st h.s r
+  let known := h.known ++ r.cells ++ cellsOf a.2.2.outs
+  let fr := freshInstance ns (ctr h.s) (ctr a.2.1) a.2.2.outs
+  let lo := localInstance (fun v w => Value.eqv v w) ns (ops.refs h.s) r.cells (ops.refs a.2.1) a.2.2.outs h.st a.1 known
+  { h with st := a.1, s := a.2.1, known := known, freshOk := h.freshOk && fr, localOk := h.localOk && lo,
+           outs := if record then h.outs ++ a.2.2.outs else h.outs,
+           evs := if record then h.evs ++ [Json.mkObj [("n", ofNat a.2.2.outs.length), ("err", ofOpt Json.str a.2.2.err)]]
+                  else h.evs }
+
+def histStep {σ : Type} (ops : Ops σ Skel Value) (ctr : σ → Nat) (ns : Nat) (reset : σ → σ) (h : HistSt σ) (j : Json) :
+    Option (HistSt σ) :=
   if !(getD j "f").isNull then do
     let x ← itemOf (getD j "f")
-    let a := ops.act h.st h.s (.fill x)
-    some { h with st := a.1, s := a.2.1, filled := h.filled ++ [x] }
-  else if !(getD j "c").isNull then some (doReq h .compute)
-  else if !(getD j "r").isNull then some (doReq h .request)
+    let h' := histAct ops ctr ns h (.fill x) false
+    some { h' with filled := h.filled ++ [x] }
+  else if !(getD j "c").isNull then some (histAct ops ctr ns h .compute true)
+  else if !(getD j "r").isNull then some (histAct ops ctr ns h .request true)
   else if !(getD j "reset").isNull then some { h with s := reset h.s }
   else if !(getD j "my").isNull then do
     let k ← nat? (getD j "my")
@@ -240,42 +337,102 @@ def histStep {σ : Type} (ops : Ops σ Skel Value) (reset : σ → σ) (h : Hist
     let k ← nat? (getD j "rf")
     match h.outs[k]? with
     | some x =>
-      let a := ops.act h.st h.s (.fill x)
-      some { h with st := a.1, s := a.2.1, filled := h.filled ++ [x] }
+      let h' := histAct ops ctr ns h (.fill x) false
+      some { h' with filled := h.filled ++ [x] }
     | none => some h
   else none
 
-def runHistory {σ : Type} (ops : Ops σ Skel Value) (reset : σ → σ) (s0 : σ) (st0 : Store Value) (hist : Array Json) : Json :=
-  match hist.toList.foldlM (histStep ops reset) { st := st0, s := s0 } with
+/-- the history as a static list of `HOp`s, when it has no operation that refers to an earlier result -/
+def staticHist {σ : Type} (reset : σ → σ) : List Json → List HItem → Option (List (HOp σ Skel Value))
+  | [], _ => some []
+  | j :: rest, filled =>
+    if !(getD j "f").isNull then do
+      let x ← itemOf (getD j "f")
+      let r ← staticHist reset rest (filled ++ [x])
+      some (.req (.fill x) :: r)
+    else if !(getD j "c").isNull then (staticHist reset rest filled).map (fun r => .req .compute :: r)
+    else if !(getD j "r").isNull then (staticHist reset rest filled).map (fun r => .req .request :: r)
+    else if !(getD j "reset").isNull then (staticHist reset rest filled).map (fun r => .upd reset :: r)
+    else if !(getD j "mf").isNull then do
+      let k ← nat? (getD j "mf")
+      let key ← str? (getD j "key")
+      let r ← staticHist reset rest filled
+      match (filled[k]?).bind HItem.ctxTok with
+      | some c => some (.ext (fun st => st.set c (setKey key (st c))) :: r)
+      | none => some r
+    else none
+
+def runHistory {σ : Type} (ops : Ops σ Skel Value) (ctr : σ → Nat) (ns : Nat) (reset : σ → σ) (s0 : σ)
+    (st0 : Store Value) (known0 : List Tok) (hist : Array Json) : Json :=
+  match hist.toList.foldlM (histStep ops ctr ns reset) { st := st0, s := s0, known := known0 } with
   | none => err "bad history"
   | some h =>
     let rf := renderItems h.st [] h.filled
     let ro := renderItems h.st rf.1 h.outs
-    Json.mkObj [("filled", Json.arr rf.2.toArray), ("outs", Json.arr ro.2.toArray), ("evs", Json.arr h.evs.toArray)]
+    -- `runHist` (the definition `acc_yield_fresh` is about) against the step-by-step execution
+    let rh : Json :=
+      match staticHist reset hist.toList [] with
+      | none => Json.null
+      | some hops =>
+        let evs := (runHist ops ctr st0 s0 hops).filter (fun e => match e.req with | .fill _ => false | _ => true)
+        let outs := evs.flatMap (fun e => e.resp.outs)
+        let evJ := evs.map (fun e => Json.mkObj [("n", ofNat e.resp.outs.length), ("err", ofOpt Json.str e.resp.err)])
+        Json.bool ((Json.arr evJ.toArray).compress == (Json.arr h.evs.toArray).compress &&
+          outs.map (·.cells) == h.outs.map (·.cells))
+    Json.mkObj [("filled", Json.arr rf.2.toArray), ("outs", Json.arr ro.2.toArray), ("evs", Json.arr h.evs.toArray),
+      ("fresh_ok", Json.bool h.freshOk), ("local_ok", Json.bool h.localOk), ("runhist_ok", rh),
+      ("outs_cells", Json.arr (h.outs.map (fun y => Json.arr (y.cells.map tokJson).toArray)).toArray)]
+
+/-- `fillAll` (the definition the StoreFilled theorems are about) against the step-by-step execution: for a
+history `fill* compute`, what `compute` yields after `fillAll` -/
+def fillAllCheck (ops : Ops HSt Skel Value) (s0 : HSt) (st0 : Store Value) (hist : List Json) : Json :=
+  let fills := hist.takeWhile (fun j => !(getD j "f").isNull)
+  match hist.drop fills.length, fills.mapM (fun j => itemOf (getD j "f")) with
+  | [c], some xs =>
+    if (getD c "c").isNull then Json.null
+    else
+      let f := fillAll ops st0 s0 xs
+      Json.arr ((ops.act f.1 f.2 .compute).2.2.outs.map (fun y => Json.arr (y.cells.map tokJson).toArray)).toArray
+  | _, _ => Json.null
+
+def addField (j : Json) (k : String) (v : Json) : Json :=
+  match j with
+  | .obj _ => j.setObjVal! k v
+  | _ => j
 
 def handleAcc (j : Json) : Json :=
   match heapOf (getD j "heap"), arr? (getD j "hist") with
   | some st0, some hist =>
     let a := getD j "acc"
+    let known0 : List Tok := match getD j "heap" with
+      | .obj kvs => kvs.toList.filterMap (fun kv => kv.1.toNat?.map (fun k => (upNs, k)))
+      | _ => []
     match str? (getD a "a") with
     | some "zip" =>
       -- Zip([acc, …]) as one accumulator
       match (arr? (getD a "subs")).bind (fun s => s.toList.mapM accOf) with
-      | some ks => runHistory (zipOps ks) (fun z => z) (zipInit ks) st0 hist
+      | some ks => runHistory (zipOps ks) (fun z => z.ctr) (ownNs ks.length) (fun z => z) (zipInit ks) st0 known0 hist
       | none => err "bad zip"
     | some "split_fc" =>
       match (arr? (getD a "subs")).bind (fun s => s.toList.mapM accOf) with
-      | some ks => runHistory splitAccOps (fun z => z) (zipInit ks) st0 hist
+      | some ks => runHistory splitAccOps (fun z => z.ctr) (ownNs ks.length) (fun z => z) (zipInit ks) st0 known0 hist
       | none => err "bad split_fc"
     | some "fcseq" =>
       -- FillComputeSeq(*steps, acc) as one accumulator
       match (arr? (getD a "steps")).bind (fun s => s.toList.mapM stepOf), accOf (getD a "term") with
       | some steps, some k =>
-        runHistory (hOps (ownNs 0) { kind := .fillCompute, steps := steps, term := k, srcN := 0 }) (fun s => s) {} st0 hist
+        runHistory (hOps (ownNs 0) { kind := .fillCompute, steps := steps, term := k, srcN := 0 }) (fun s => s.ctr) (ownNs 0)
+          (fun s => s) {} st0 known0 hist
       | _, _ => err "bad fcseq"
     | _ =>
       match accOf a with
-      | some k => runHistory (accOps (ownNs 0) k) (fun s => { s with acc := accReset s.acc }) {} st0 hist
+      | some k =>
+        -- Graph(context=ctx): the accumulator starts with a `_cur_context` given by the caller
+        let s0 : HSt := match nat? (getD a "ctx") with
+          | some c => { acc := { cur := some (upNs, c) } }
+          | none => {}
+        addField (runHistory (accOps (ownNs 0) k) (fun s => s.ctr) (ownNs 0) (fun s => { s with acc := accReset s.acc }) s0
+          st0 known0 hist) "fillall" (fillAllCheck (accOps (ownNs 0) k) s0 st0 hist.toList)
       | none => err "bad acc"
   | _, _ => err "bad acc args"
 
